@@ -70,6 +70,29 @@ fn gen(rng: &mut Rng) -> Program {
             ops.insert(at, Op::ArmCrash { k: rng.range(1, 4) as u32, after: rng.chance(1, 2) });
         }
     }
+    // one history in five with two or more databases begins with the motif "the very first snapshot of a database dies
+    // after a few disk calls; in the next life another database is created first, then the same name again; both are
+    // snapshotted; restart": whatever the dead snapshot left behind must not give the re-created database an identifier
+    // that meanwhile belongs to another one
+    if ndb >= 2 && rng.chance(1, 5) {
+        let a = 1 + rng.below(ndb as u64 - 1) as usize;
+        let b = if a == ndb - 1 { 0 } else { a + 1 };
+        let motif = vec![
+            Op::CreateDb { db: a },
+            Op::ArmCrash { k: rng.range(1, 4) as u32, after: rng.chance(1, 2) },
+            Op::Snapshot { mask: 1 << a, reclaim: false },
+            Op::Write { db: 0, key: 0 },
+            Op::CreateDb { db: b },
+            Op::CreateDb { db: a },
+            Op::Write { db: a, key: 1 },
+            Op::Snapshot { mask: (1 << a) | (1 << b) | 1, reclaim: false },
+            Op::RestartKill,
+            Op::Write { db: a, key: 2 },
+        ];
+        for (j, m) in motif.into_iter().enumerate() {
+            ops.insert(1 + j, m);
+        }
+    }
     ops.push(if rng.chance(1, 2) { Op::RestartKill } else { Op::RestartSigint });
     Program { ops }
 }
